@@ -138,7 +138,18 @@ def run_property(prop, tier, seed, repo, write_evidence=True, quiet=False):
     model = Model(repo)
     mod = importlib.import_module(f'pvstatic.rules.{prop}')
     ctx = Ctx(prop, tier, seed, model)
-    mod.run(ctx)
+    try:
+      mod.run(ctx)
+    except AnalysisError as e:
+      # a rule lost its anchor after other rules had already reported: the violations found stand (they are
+      # printed, exit 1); with no new violation the run is analysis-broken (exit 2) - see `deferred` below
+      if not ctx.findings:
+        raise
+      ctx.deferred.append(str(e))
+    except Exception as e:     # a checker crash after violations were found: the violations stand, the crash is deferred
+      if not ctx.findings:
+        raise
+      ctx.deferred.append(f'checker exception {type(e).__name__}: {e}')
     if ctx.obligations == 0:
       raise AnalysisError('no obligations were generated (vacuous run)')
   except AnalysisError as e:
